@@ -80,32 +80,31 @@ def run(pid, tier, seed, args, t0):
     if os.environ.get('PYVC_MUTANT'):       # self-test hook: "qual::old text=>new text"
         mq, _, edit = os.environ['PYVC_MUTANT'].partition('::')
         engine.MUTANTS[mq] = tuple(edit.split('=>'))
-    frs = []
-    for q in P['functions']:
-        frs.append(eng.verify_function(q))
+    quals = list(P['functions'])
+    if P.get('function_generator'):
+        quals += getattr(importlib.import_module(P['function_generator'][0]), P['function_generator'][1])(tier)
+    # one worker per function: VC generation and solving of different functions run in parallel
+    import multiprocessing as mp
+    jobs = [(q, pid, tier) for q in quals]
+    nproc = min(16, max(1, len(jobs)))
+    if nproc > 1:
+        with mp.get_context('fork').Pool(nproc) as pool:
+            packs = pool.map(_verify_worker, jobs, chunksize=1)
+    else:
+        packs = [_verify_worker(j) for j in jobs]
+    frs, obls, results = [], [], []
     undecided, lines = [], []
-    for fr in frs:
+    other_props = 0
+    for pk in packs:
+        fr = FnSummary(pk)
+        frs.append(fr)
         if fr.error:
             undecided.append('%s: %s' % (fr.qual, fr.error))
-    obls = []
-    other_props = 0
-    for fr in frs:
-        c = SP.CONTRACTS.get(fr.qual)
-        foreign = set()
-        if c is not None:
-            mine = set(c.clauses_from.get(pid, []))
-            for q, labs in c.clauses_from.items():
-                if q != pid:
-                    foreign |= set(labs) - mine
-        for o in fr.obligations:
-            o.fr = fr
-            # a clause copied from ANOTHER property's statement is decided by that property's check, not here
-            lab = o.name.split('post[', 1)[1].split(']@', 1)[0] if '/post[' in o.name else None
-            if lab is not None and lab in foreign:
-                other_props += 1
-                continue
+        other_props += pk['foreign']
+        for od in pk['obligations']:
+            o = ObSummary(od, fr)
             obls.append(o)
-    results = solve.discharge(obls, tier, cross=(tier == 'thorough'))
+            results.append(od['result'])
     by_name = {}
     for o, r in zip(obls, results):
         by_name.setdefault(o.name, []).append((o, r))
@@ -158,16 +157,19 @@ def run(pid, tier, seed, args, t0):
         mod = importlib.import_module('bounded.' + bname)
         bounded_results.append(mod.run(tier, seed))
     # ---- vacuity
-    covers = {fr.qual: cover_check(fr) for fr in frs if not fr.error}
+    covers = {fr.qual: fr.pre_sat for fr in frs if not fr.error}
     for q, v in covers.items():
         if v == 'unsat':
             undecided.append('%s: precondition is unsatisfiable (vacuous contract)' % q)
     for fr in frs:
-        if not fr.error and not fr.obligations:
+        if not fr.error and not fr.obligations and not fr.foreign:
             undecided.append('%s: zero obligations generated' % fr.qual)
     # ---- ledger
     ledger_path = os.path.join(HERE, 'ledger', pid + '.json')
-    all_names = sorted(name_verdict) + sorted(t['name'] for t in table_results)
+    # the ledger pins the property-relevant obligations (posts, raises, tables); frame / invariant / callee-precondition
+    # obligations may legitimately come and go with harmless edits
+    all_names = sorted(n for n in name_verdict if '/post[' in n or '/raises[' in n or '/expost[' in n) + \
+        sorted(t['name'] for t in table_results)
     if args.update_ledger:
         os.makedirs(os.path.dirname(ledger_path), exist_ok=True)
         with open(ledger_path, 'w') as f:
@@ -225,17 +227,18 @@ def run(pid, tier, seed, args, t0):
     used = set()
     for fr in frs:
         used |= set(fr.used_contracts)
-    trusted = sorted(q for q in used if SP.CONTRACTS[q].trusted)
-    assumed_verified_elsewhere = sorted(q for q in used if not SP.CONTRACTS[q].trusted and q not in P['functions'])
+    trusted = sorted(q for q in used if q in SP.CONTRACTS and SP.CONTRACTS[q].trusted)
+    assumed_verified_elsewhere = sorted(q for q in used if q in SP.CONTRACTS and not SP.CONTRACTS[q].trusted and q not in quals)
     assumptions = set(P.get('assumptions', []))
-    for q in used | set(P['functions']):
-        assumptions |= set(SP.CONTRACTS[q].assumptions)
+    for q in used | set(quals):
+        if q in SP.CONTRACTS:
+            assumptions |= set(SP.CONTRACTS[q].assumptions)
     samples = []
     for o, r in list(zip(obls, results))[:400]:
         if not o.info.get('trivial') and len(samples) < 4 and o.kind in ('post', 'raises', 'inv-keep'):
             samples.append({'obligation': o.name, 'kind': o.kind, 'path': o.info.get('trace'), 'verdict': r['verdict'],
                             'backend': r['backend'], 'seconds': round(r['seconds'], 3),
-                            'smt2_head': getattr(o, 'smt2', '')[-600:]})
+                            'smt2_tail': o.smt2})
     for t in table_results[:2]:
         samples.append({'obligation': t['name'], 'kind': 'table', 'cases': t.get('cases'), 'verdict': 'ok' if t['ok'] else 'fails'})
     ev = {
@@ -245,7 +248,7 @@ def run(pid, tier, seed, args, t0):
             'checker_cmd': 'bin/check %s --tier %s' % (pid, tier),
             'trusted_base': ['z3 %s' % z3.get_version_string(), 'cvc5 1.0.3', 'z3 4.8.12', 'PyVC (this directory)',
                              'CPython ast'] + ['contract(trusted): ' + q for q in trusted],
-            'functions_under_contract': [fr.fi.describe() for fr in frs if fr.fi is not None],
+            'functions_under_contract': [fr.meta for fr in frs if fr.meta is not None],
             'paths_explored': sum(fr.paths for fr in frs),
             'path_instances': len(obls),
             'by_kind': _count(o.kind for o in obls),
@@ -295,6 +298,53 @@ def run(pid, tier, seed, args, t0):
             print('UNDECIDED property=%s %s' % (pid, u))
         return 2
     return 0
+
+
+class FnSummary(object):
+    def __init__(self, pk):
+        self.__dict__.update(pk)
+        self.fi = self
+
+    def describe(self):
+        return self.meta
+
+
+class ObSummary(object):
+    def __init__(self, od, fr):
+        self.name, self.kind, self.info, self.smt2, self.fr = od['name'], od['kind'], od['info'], od['smt2_tail'], fr
+
+
+def _verify_worker(job):
+    """runs in a forked worker: generate the obligations of one function and discharge them"""
+    q, pid, tier = job
+    eng = engine.Engine()
+    fr = eng.verify_function(q)
+    c = SP.CONTRACTS.get(q)
+    foreign = set()
+    if c is not None:
+        mine = set(c.clauses_from.get(pid, []))
+        for q2, labs in c.clauses_from.items():
+            if q2 != pid:
+                foreign |= set(labs) - mine
+    keep, nforeign = [], 0
+    for o in fr.obligations:
+        # a clause copied from ANOTHER property's statement is decided by that property's check, not here
+        lab = o.name.split('post[', 1)[1].rsplit(']@', 1)[0] if '/post[' in o.name else None
+        if lab is not None and lab in foreign:
+            nforeign += 1
+            continue
+        keep.append(o)
+    res = solve.discharge(keep, tier, cross=(tier == 'thorough'), procs=1)
+    s = z3.Solver()
+    s.set('timeout', 5000)
+    s.add(*getattr(fr, 'pre', []))
+    return {'qual': q, 'error': fr.error, 'paths': fr.paths, 'exits': fr.exits, 'inlined': fr.inlined,
+            'used_contracts': fr.used_contracts, 'meta': fr.fi.describe() if fr.fi is not None else None,
+            'seconds': fr.seconds, 'foreign': nforeign, 'pre_sat': str(s.check()) if not fr.error else 'n/a',
+            'has_fi': fr.fi is not None,
+            'obligations': [{'name': o.name, 'kind': o.kind,
+                             'info': {'trace': o.info.get('trace'), 'trivial': o.info.get('trivial', False)},
+                             'smt2_tail': getattr(o, 'smt2', '')[-600:], 'result': r} for o, r in zip(keep, res)]}
 
 
 def _safe(name):
